@@ -241,7 +241,7 @@ namespace vh {
       chai.add_global(var(nc_vec), "NC_VEC");
       chai.add_global(var(nc_map), "NC_MAP");
       chai.add_global(var(nc_tk), "NC_TK");
-      chai.eval("def idf(x) { x }");
+      chai.eval("def c7_idf(x) { x }");
       chai.eval("def out(x) { hout(to_string(x)) }");
     }
 
